@@ -216,10 +216,10 @@ inductive LexMode where
   | bad
 deriving Repr, DecidableEq
 
-/-- characters that `\` turns into themselves: printable ASCII that is neither a letter nor a digit nor `<` `>`
-    (`regex_syntax::is_escapeable_character`, restricted to visible characters) -/
+/-- characters that `\` turns into themselves: printable ASCII (incl. the space) that is neither a letter nor
+    a digit nor `<` `>` (`regex_syntax::is_escapeable_character`, restricted to printable characters) -/
 def escapable (c : Char) : Bool :=
-  33 ≤ c.toNat && c.toNat ≤ 126 && !isDigitA c && !(65 ≤ c.toNat && c.toNat ≤ 90) && !(97 ≤ c.toNat && c.toNat ≤ 122)
+  32 ≤ c.toNat && c.toNat ≤ 126 && !isDigitA c && !(65 ≤ c.toNat && c.toNat ≤ 90) && !(97 ≤ c.toNat && c.toNat ≤ 122)
     && c != '<' && c != '>'
 
 /-- `\d \w \s \D \W \S` -/
